@@ -55,7 +55,7 @@ LEVEL_NOTE = ('Trusted: NumPy, Hypothesis, vlib/ref/funcs_conj.py (reference '
               '(pinned by C02). Base points keep a margin from kinks and '
               'domain boundaries; real spaces only.')
 DESIGN_REF = 'DESIGN.md section 5, C09'
-BUDGET = {'quick': 2400, 'thorough': 60000}
+BUDGET = {'quick': 6000, 'thorough': 80000}
 TOLERANCES = {
     'grad_fd': '|<grad f(x),d> - D| <= 1e-7*(|g|+||grad||*||d||) + 16*err, '
                'D / err from the Romberg table of 7 central differences '
@@ -119,7 +119,8 @@ def _strategy(draw, tier):
                                 ['product'] * 2 + ['field', 'matrix']))
     dtypes = ('float64',) * 7 + ('float32',)
     if pick == 'flat':
-        sd = draw(Z.flat_space_descs(max_size=6, dtypes=dtypes))
+        sd = draw(Z.flat_space_descs(
+            max_size=6 if tier == 'quick' else 9, dtypes=dtypes))
     elif pick == 'power':
         sd = draw(Z.power_space_descs(weightings=('none', 'none', 'const',
                                                   'array')))
@@ -249,6 +250,19 @@ def run_case(desc):
         B = Z.build_func(space, sd, fd)
     except Z.Rejected as e:
         return Outcome('rejected', strata=['rejected:' + str(e)[:30]])
+    except Z.BuildCrash as bc:
+        from vlib import core
+        part = bc.built
+        kr = known_region(part)
+        if kr is not None and not desc.get('probe_known', False):
+            return Outcome('excluded', strata=['excluded:' + kr])
+        where, csig = core.crash_signature(PROPERTY, bc.exc)
+        region = 'w=' + Z.wcoarse(part.sd)
+        if part.region_str():
+            region += ',' + part.region_str()
+        raise Violation('C09|crash|{}|{}|{}'.format(
+            type(part.f).__name__, region, csig.split('|', 2)[2]),
+            'constructing the derived functional failed: ' + str(bc)[:300])
     xraw = np.asarray(desc['x'], float) * desc['xscale']
     draw_ = np.asarray(desc['d'], float)
     zraw = np.asarray(desc['z'], float)
